@@ -323,6 +323,7 @@ type request struct {
 	release chan int
 	done    chan struct{}
 	fell    int32
+	abort   int // the fallback handler, if it gets this request, gives up by panicking (1: http.ErrAbortHandler, 2: a bug)
 }
 
 type reqKey struct{}
@@ -346,6 +347,9 @@ func nowNS() int64 { return clock.Now().UTC().UnixNano() }
 func (r *runner) arrive(abandoned bool) (pass bool, err error) {
 	rq := &request{start: nowNS(), release: make(chan int, 1), done: make(chan struct{}, 1)}
 	r.nreq++
+	if r.nreq%5 == 2 {
+		rq.abort = 1 + (r.nreq/5)%2
+	}
 	req := hlib.Vary(httptest.NewRequest(http.MethodGet, "http://example.com/", nil), r.nreq)
 	ctx := context.WithValue(req.Context(), reqKey{}, rq)
 	if abandoned {
@@ -356,8 +360,11 @@ func (r *runner) arrive(abandoned bool) (pass bool, err error) {
 	req = req.WithContext(ctx)
 	w := httptest.NewRecorder()
 	go func() {
+		defer func() {
+			_ = recover() // a fallback that gave up: what net/http's server does with it (the connection is dropped)
+			rq.done <- struct{}{}
+		}()
 		r.front.ServeHTTP(w, req)
-		rq.done <- struct{}{}
 	}()
 	select {
 	case got := <-r.entered:
@@ -550,6 +557,14 @@ func (c *cbComp) Run(h *hlib.History) ([]hlib.Mon, bool) {
 	fallback := http.HandlerFunc(func(w http.ResponseWriter, req *http.Request) {
 		rq := req.Context().Value(reqKey{}).(*request)
 		atomic.StoreInt32(&rq.fell, 1)
+		switch rq.abort { // a fallback that fails is still the answer: the request has been kept from the protected handler
+		case 1:
+			hlib.Count("fallbacks_that_abort", 1)
+			panic(http.ErrAbortHandler)
+		case 2:
+			hlib.Count("fallbacks_that_abort", 1)
+			panic("fallback handler: nil map")
+		}
 		w.WriteHeader(http.StatusServiceUnavailable)
 	})
 	cbOpts := []cbreaker.Option{
